@@ -250,8 +250,9 @@ def b_normalized(ctx):
     res = ctx.res
     if res.get("stage") or "normalized" not in res:
         raise SkipTrace("no_normalized" if not res.get("stage") else "refused")
-    src_vars = set(res.get("variables", []))
-    P = poisoned(absyn.prog(res["normalized"][ctx.pi]), src_vars)
+    # every variable without a given start value (auxiliaries, and source variables the program initialises
+    # itself) starts at a distinctive value
+    P = poisoned(absyn.prog(res["normalized"][ctx.pi]), set())
     ctx.norm = ctx.add_prog(P)
     ctx.normP = P
 
@@ -294,7 +295,8 @@ def b_types(ctx):
             continue
         k += 1
         for n in range(0, ctx.N + 1):
-            ctx.claim(n, {"t": "supp", "pi": ctx.norm, "v": v, "vals": [F(x) for x in vals], "tag": v})
+            ctx.claim(n, {"t": "supp", "pi": ctx.norm, "v": v, "vals": [F(x) for x in vals], "tag": v,
+                          "start": ctx.normP["s0"][v]})
     ctx.note("typed_vars", k)
 
 
@@ -355,15 +357,22 @@ def b_term(ctx):
         if any(v not in P["vars"] for v, _ in poly[0][1]):
             continue
         for n, val in enumerate(to["values"][ctx.pi][:ctx.N + 1]):
-            base = {"t": "cmom", "pi": ctx.src, "poly": poly, "cond": notg, "tag": g}
-            if "q" in val:
-                ctx.claim(n, dict(base, val=F(val["q"]), undef=0))
-            elif "undef" in val:
-                ctx.claim(n, dict(base, undef=1))
-            else:
-                ctx.note("term_other")
-                if "free" in val:
-                    ctx.direct.append({"clause": "free-symbol", "goal": g, "n": n, "polar_value": val})
+            for lag in (0, 1):
+                base = {"t": "cmom", "pi": ctx.src, "poly": poly, "cond": notg, "lag": lag,
+                        "tag": ("lagged:" if lag else "aligned:") + g}
+                if "q" in val:
+                    ctx.claim(n, dict(base, val=F(val["q"]), undef=0))
+                elif "undef" in val:
+                    ctx.claim(n, dict(base, undef=1))
+                elif "free" in val and n == 0 and all(x.startswith("_old") for x in val["free"]):
+                    # the guard is evaluated on the saved old value, which has no value before the first iteration
+                    if lag == 0:
+                        ctx.claim(n, dict(base, undef=1))
+                else:
+                    if lag == 0:
+                        ctx.note("term_other")
+                        if "free" in val:
+                            ctx.direct.append({"clause": "free-symbol", "goal": g, "n": n, "polar_value": val})
 
 
 def b_sens(ctx):
